@@ -40,7 +40,7 @@ const c12GoTool = "go1.26.8"
 var c12SyncedFiles = []string{"enforcer_synced.go", "rbac_api_synced.go", "rbac_api_with_domains_synced.go"}
 
 // scenario order = execution order inside the test binary
-var c12Scenarios = []string{"plain", "domains", "pattern", "firstcall", "filtered-load", "priority", "autoload-stop", "autoload-run"}
+var c12Scenarios = []string{"plain", "domains", "pattern", "firstcall", "filtered-load", "getter-alias", "priority", "autoload-stop", "autoload-run"}
 
 type c12Param struct{ Name, Type string }
 
@@ -264,7 +264,7 @@ func c12ParseOutput(out string) (map[string]*c12Seg, []string) {
 				s.calls, _ = strconv.Atoi(m[2])
 				s.nmeth, _ = strconv.Atoi(m[3])
 			}
-			cur = ""
+			// cur is kept: a report printed after DONE (before the next START) still belongs here
 			continue
 		}
 		if m := c12ReMethod.FindStringSubmatch(ln); m != nil {
@@ -320,41 +320,64 @@ func c12Classify(s *c12Seg) (string, int) {
 	return "ok", -1
 }
 
-// c12RacePair names the SyncedEnforcer methods on top of the two stacks of the first race report.
-func c12RacePair(lines []string) string {
-	var found []string
-	inBlock := false
-	got := false
+// c12RaceSummary condenses the first race report of a segment: the method pair and the top frames
+// of both access stacks. Only frames ABOVE the stress test's own code are used for the pair: casbin's
+// enforce() recovers panics, which leaves stale entries on the race detector's shadow stack, so the
+// frames below the test's call site are not reliable.
+func c12RaceSummary(lines []string) (pair string, text string) {
+	var labels, parts []string
+	inBlock := false // inside a "Write at / Previous read at" block
+	frames := 0      // stack lines copied from the current block
+	labelled := false
 	for _, ln := range lines {
-		t := strings.TrimSpace(ln)
+		t := strings.TrimSpace(strings.ReplaceAll(ln, "\t", " "))
+		if strings.HasPrefix(t, "==================") {
+			if len(parts) > 1 {
+				break
+			}
+			continue
+		}
+		if strings.HasPrefix(t, "WARNING: DATA RACE") {
+			if len(parts) > 0 {
+				break
+			}
+			parts = append(parts, t)
+			continue
+		}
+		if len(parts) == 0 {
+			continue
+		}
 		if c12ReAccess.MatchString(t) {
-			inBlock, got = true, false
+			inBlock, frames, labelled = true, 0, false
+			parts = append(parts, t)
 			continue
 		}
 		if t == "" {
-			if inBlock && !got {
-				found = append(found, "?")
+			if inBlock && !labelled {
+				labels = append(labels, "?")
 			}
 			inBlock = false
 			continue
 		}
-		if strings.HasPrefix(t, "==================") && len(found) > 0 {
-			break
+		if !inBlock {
+			continue
 		}
-		if inBlock && !got {
+		if frames < 14 { // 7 frames: function line + file line
+			parts = append(parts, t)
+			frames++
+		}
+		if !labelled {
 			if m := c12ReSynced.FindStringSubmatch(t); m != nil {
-				found = append(found, "SyncedEnforcer."+m[1])
-				got = true
+				labels = append(labels, "SyncedEnforcer."+m[1])
+				labelled = true
+			} else if strings.HasPrefix(t, "c12stress.") {
+				// the access is in the caller's own code: it reads a value a wrapper returned earlier
+				labels = append(labels, "caller reading a returned value ("+strings.TrimSuffix(t, "()")+")")
+				labelled = true
 			}
 		}
-		if len(found) >= 2 {
-			break
-		}
 	}
-	if len(found) == 0 {
-		return ""
-	}
-	return strings.Join(found, " vs ")
+	return strings.Join(labels, " vs "), strings.Join(parts, " | ")
 }
 
 func c12OneLine(lines []string, from, n int) string {
@@ -444,7 +467,7 @@ func init() {
 		verOut, _ := exec.Command(c12GoTool, "version").CombinedOutput()
 		goVersion := strings.TrimSpace(string(verOut))
 
-		c.Rule = fmt.Sprintf("exploration (race-detector stress), not proof: the %d exported methods declared on *SyncedEnforcer (%d read-lock, %d write-lock wrappers; list taken from the AST of %s at run time) are called through reflection from 16 goroutines, each with its own seeded PRNG drawing a weighted random method and arguments built per parameter type/name over a small universe (7 subjects, 3 objects, 2 actions, 2 domains, rules of the model's arity, so calls really collide on the same rules); 8 scenarios per seed (%s): 5 random-mix scenarios of %d ms each over RBAC / RBAC-with-domains / pattern-matching role manager + keyMatch/regexMatch matcher / priority models with file and filtered-file adapters and a live auto-loader, plus first-call-after-construction rounds behind a barrier (F18 shape), concurrent LoadPolicy on a FilteredAdapter (F36 shape) and concurrent StopAutoLoadPolicy rounds (F28 shape); run under `%s test -race`; a case is one scenario run, its observable is ok unless the segment of the output shows a data race, a concurrent-map/fatal fault, a panic escaping a wrapper, or a watchdog/timeout deadlock; non-trivial = a (scenario, method) pair that was really executed in the concurrent phase", len(specs), nR, nW, strings.Join(c12SyncedFiles, ","), strings.Join(c12Scenarios, ","), millis, c12GoTool)
+		c.Rule = fmt.Sprintf("exploration (race-detector stress), not proof: the %d exported methods declared on *SyncedEnforcer (%d read-lock, %d write-lock wrappers; list taken from the AST of %s at run time) are called through reflection from 16 goroutines, each with its own seeded PRNG drawing a weighted random method and arguments built per parameter type/name over a small universe (7 subjects, 3 objects, 2 actions, 2 domains, rules of the model's arity, so calls really collide on the same rules); after every call the calling goroutine deep-reads the returned values outside the lock, and re-reads a quarter of them after 1-3 further calls (aliasing of internal slices, F38 shape); %d scenarios per seed (%s): 5 random-mix scenarios of %d ms each over RBAC / RBAC-with-domains / pattern-matching role manager + keyMatch/regexMatch matcher / priority models with file and filtered-file adapters and a live auto-loader, plus first-call-after-construction rounds behind a barrier (F18 shape), concurrent LoadPolicy on a FilteredAdapter (F36 shape), readers iterating getter results against in-place writers (F38 shape) and concurrent StopAutoLoadPolicy rounds (F28 shape); run under `%s test -race`; a case is one scenario run, its observable is ok unless the segment of the output shows a data race, a concurrent-map/fatal fault, a panic escaping a wrapper, or a watchdog/timeout deadlock; non-trivial = a (scenario, method) pair that was really executed in the concurrent phase", len(specs), nR, nW, strings.Join(c12SyncedFiles, ","), len(c12Scenarios), strings.Join(c12Scenarios, ","), millis, c12GoTool)
 
 		cmdline := "GOFLAGS=-mod=mod GOPROXY=off GOSUMDB=off GOTOOLCHAIN=local " + c12GoTool + " " + strings.Join(c12TestArgs(testTimeout), " ")
 		c.Notes = append(c.Notes, "exploration, not proof: a clean run shows no race/panic/deadlock on the explored interleavings only")
@@ -559,12 +582,16 @@ func init() {
 						"panic":    "panic escaped a SyncedEnforcer method",
 						"deadlock": "deadlock (watchdog / test timeout)",
 					}[kind]
+					report := c12OneLine(s.lines, at, 25)
 					if kind == "race" {
-						if p := c12RacePair(s.lines[at:]); p != "" {
-							what += ": " + p
+						if p, txt := c12RaceSummary(s.lines[at:]); txt != "" {
+							report = txt
+							if p != "" {
+								what += ": " + p
+							}
 						}
 					}
-					replay := fmt.Sprintf("scenario=%s seed=%d millis=%d repo=%s replay: C12_SEED=%d C12_MILLIS=%d C12_STOP_ROUNDS=%d C12_SCENARIO=%s %s :: %s", name, seed, millis, repo, seed, millis, stopRounds, name, cmdline, c12OneLine(s.lines, at, 25))
+					replay := fmt.Sprintf("scenario=%s seed=%d millis=%d repo=%s replay: C12_SEED=%d C12_MILLIS=%d C12_STOP_ROUNDS=%d C12_SCENARIO=%s %s :: %s", name, seed, millis, repo, seed, millis, stopRounds, name, cmdline, report)
 					c.Direct(id, what, replay)
 				}
 			}
@@ -1043,7 +1070,7 @@ func (r *runner) prepare(ev reflect.Value, si int, g *gen) (call, bool) {
 	return call{si, m, args}, true
 }
 
-func (r *runner) run(c call, slot *int32) {
+func (r *runner) run(c call, slot *int32) []reflect.Value {
 	name := specs[c.si].Name
 	if slot != nil {
 		atomic.StoreInt32(slot, int32(c.si+1))
@@ -1058,6 +1085,136 @@ func (r *runner) run(c call, slot *int32) {
 	if slot != nil {
 		atomic.StoreInt32(slot, 0)
 	}
+	return out
+}
+
+// ---------------------------------------------------------------- reading the results (shape of F38)
+
+// sink receives every goroutine's checksum, so that the reads below cannot be optimised away
+var sink uint64
+
+var errorType = reflect.TypeOf((*error)(nil)).Elem()
+
+func syncType(t reflect.Type) bool {
+	p := t.PkgPath()
+	return p == "sync" || p == "sync/atomic"
+}
+
+// folder deep-reads values the way a caller would: AFTER the wrapper returned, outside any lock.
+// If a wrapper hands out memory that writers later modify in place, the race detector sees it here.
+type folder struct{ sum uint64 }
+
+func (f *folder) str(s string) {
+	f.sum = f.sum*31 + uint64(len(s))
+	if len(s) > 0 {
+		f.sum += uint64(s[0])
+	}
+}
+
+func (f *folder) walk(v reflect.Value, depth int) {
+	if !v.IsValid() || depth > 8 {
+		return
+	}
+	t := v.Type()
+	if syncType(t) {
+		return
+	}
+	switch v.Kind() {
+	case reflect.String:
+		f.str(v.String())
+	case reflect.Bool:
+		f.sum *= 3
+		if v.Bool() {
+			f.sum++
+		}
+	case reflect.Int, reflect.Int8, reflect.Int16, reflect.Int32, reflect.Int64:
+		f.sum = f.sum*31 + uint64(v.Int())
+	case reflect.Uint, reflect.Uint8, reflect.Uint16, reflect.Uint32, reflect.Uint64, reflect.Uintptr:
+		f.sum = f.sum*31 + v.Uint()
+	case reflect.Float32, reflect.Float64:
+		f.sum = f.sum*31 + uint64(int64(v.Float()))
+	case reflect.Slice, reflect.Array:
+		if v.Kind() == reflect.Slice && v.IsNil() {
+			return
+		}
+		n := v.Len()
+		f.sum = f.sum*31 + uint64(n)
+		for i := 0; i < n; i++ {
+			f.walk(v.Index(i), depth+1)
+		}
+	case reflect.Map:
+		if v.IsNil() {
+			return
+		}
+		it := v.MapRange()
+		for it.Next() {
+			f.walk(it.Key(), depth+1)
+			f.walk(it.Value(), depth+1)
+		}
+	case reflect.Ptr:
+		if v.IsNil() || syncType(t.Elem()) {
+			return
+		}
+		f.walk(v.Elem(), depth+1)
+	case reflect.Interface:
+		if v.IsNil() {
+			return
+		}
+		if t.Implements(errorType) && v.CanInterface() {
+			f.str(v.Interface().(error).Error()) // what a caller does with an error
+			return
+		}
+		f.walk(v.Elem(), depth+1)
+	case reflect.Struct:
+		for i := 0; i < v.NumField(); i++ {
+			f.walk(v.Field(i), depth+1)
+		}
+	}
+}
+
+func (f *folder) results(out []reflect.Value) {
+	for _, v := range out {
+		f.walk(v, 0)
+	}
+}
+
+// kept result: read once more after the goroutine has made a few further calls (a getter returned
+// [a b c], a later RemovePolicy shifted the backing array, the old slice is read again)
+type kept struct {
+	out []reflect.Value
+	due int
+}
+
+type rereader struct {
+	f    folder
+	keep []kept
+}
+
+// after is called with the results of every call of the goroutine
+func (rr *rereader) after(out []reflect.Value, rng *rand.Rand) {
+	rr.f.results(out)
+	j := 0
+	for _, k := range rr.keep {
+		k.due--
+		if k.due <= 0 {
+			rr.f.results(k.out)
+		} else {
+			rr.keep[j] = k
+			j++
+		}
+	}
+	rr.keep = rr.keep[:j]
+	if len(out) > 0 && rng.Intn(4) == 0 {
+		rr.keep = append(rr.keep, kept{out, 1 + rng.Intn(3)})
+	}
+}
+
+func (rr *rereader) finish() {
+	for _, k := range rr.keep {
+		rr.f.results(k.out)
+	}
+	rr.keep = nil
+	atomic.AddUint64(&sink, rr.f.sum)
 }
 
 func weight(name string) int {
@@ -1270,6 +1427,8 @@ func runMix(t *testing.T, cfg *mixCfg, ec envCfg, scIdx int) {
 			defer wg.Done()
 			g := &gen{cfg: cfg, rng: rand.New(rand.NewSource(mixSeed(ec.seed, scIdx, w, 1)))}
 			mine := counts[w]
+			rr := &rereader{}
+			defer rr.finish()
 			<-start
 			for time.Now().Before(deadline) && atomic.LoadInt32(&r.abort) == 0 {
 				x := g.rng.Intn(total)
@@ -1284,7 +1443,8 @@ func runMix(t *testing.T, cfg *mixCfg, ec envCfg, scIdx int) {
 					r.harnessBug(sp.Name, err)
 					return
 				}
-				r.run(call{si, methods[si], args}, &slots[w])
+				out := r.run(call{si, methods[si], args}, &slots[w])
+				rr.after(out, g.rng)
 				mine[si]++
 			}
 		}(w)
@@ -1386,10 +1546,12 @@ func runFirstCall(t *testing.T, ec envCfg, scIdx int) {
 				if !ok {
 					return
 				}
+				rr := &rereader{}
 				for _, c := range calls {
-					r.run(c, nil)
+					rr.after(r.run(c, nil), g.rng)
 					counts[w][c.si]++
 				}
+				rr.finish()
 			}(w, rounds)
 		}
 		ready.Wait()
@@ -1557,6 +1719,171 @@ func runFilteredLoad(t *testing.T, ec envCfg, scIdx int) {
 	emit(name, h.counts())
 }
 
+// ---------------------------------------------------------------- getter-alias (shape of F38)
+
+// Readers keep reading the rule lists handed out by the getters AFTER the call returned, while
+// writers add, remove (the removal shifts the tail of the model's slice in place) and update
+// (overwrites one slot in place) rules. A getter that returns the model's own slice makes the
+// readers' element reads race with those in-place writes.
+func runGetterAlias(t *testing.T, ec envCfg, scIdx int) {
+	const name = "getter-alias"
+	fmt.Printf("C12-SCENARIO %s START seed=%d millis=%d\n", name, ec.seed, ec.millis*3/4)
+	r := &runner{t: t, scenario: name}
+	h := newHits()
+	const nWriters, nReaders = 8, 8
+	// every writer owns a few rules; they start present and interleaved, ~6+8*3=30 p rules at most
+	own := make([][][]string, nWriters)
+	ownG := make([][][]string, nWriters)
+	policy := "p, alice, data1, read\np, bob, data2, write\np, admin, data1, write\np, role1, data2, read\np, role1, /res/1, read\np, carol, data1, read\ng, alice, admin\ng, bob, role1\n"
+	for w := 0; w < nWriters; w++ {
+		a, b, c := fmt.Sprintf("w%da", w), fmt.Sprintf("w%db", w), fmt.Sprintf("w%dc", w)
+		own[w] = [][]string{{a, "data1", "read"}, {a, "data2", "write"}, {b, "data1", "write"}, {b, "/res/1", "read"}, {c, "data2", "read"}, {c, "data1", "read"}}
+		ownG[w] = [][]string{{a, "role1"}, {b, "admin"}, {c, "role1"}}
+	}
+	for i := 0; i < 3; i++ { // the first three rules of every writer are in the file, interleaved
+		for w := 0; w < nWriters; w++ {
+			policy += "p, " + strings.Join(own[w][i], ", ") + "\n"
+		}
+	}
+	dir := t.TempDir()
+	mp, pp := filepath.Join(dir, "model.conf"), filepath.Join(dir, "policy.csv")
+	writeFile(t, mp, kindPlain.text)
+	writeFile(t, pp, policy)
+	e, err := casbin.NewSyncedEnforcer(mp, fileadapter.NewAdapter(pp))
+	if err != nil {
+		r.harnessBug("-", err)
+		return
+	}
+	dur := time.Duration(ec.millis*3/4) * time.Millisecond
+	wd := startWatchdog(name, dur+10*time.Second, nil)
+	deadline := time.Now().Add(dur)
+	var wg sync.WaitGroup
+	start := make(chan struct{})
+	for w := 0; w < nWriters; w++ {
+		wg.Add(1)
+		go func(w int) {
+			defer wg.Done()
+			rng := rand.New(rand.NewSource(mixSeed(ec.seed, scIdx, w, 7)))
+			present := []bool{true, true, true, false, false, false}
+			presentG := []bool{false, false, false}
+			find := func(ps []bool, want bool) int {
+				off := rng.Intn(len(ps))
+				for k := range ps {
+					if i := (off + k) % len(ps); ps[i] == want {
+						return i
+					}
+				}
+				return -1
+			}
+			<-start
+			for time.Now().Before(deadline) {
+				switch rng.Intn(9) {
+				case 0, 1:
+					if i := find(present, false); i >= 0 {
+						r.guard("AddPolicy", func() { _, _ = e.AddPolicy(own[w][i]) })
+						h.hit("AddPolicy")
+						present[i] = true
+					}
+				case 2, 3:
+					if i := find(present, true); i >= 0 {
+						r.guard("RemovePolicy", func() { _, _ = e.RemovePolicy(own[w][i]) })
+						h.hit("RemovePolicy")
+						present[i] = false
+					}
+				case 4, 5:
+					i, j := find(present, true), find(present, false)
+					if i >= 0 && j >= 0 {
+						r.guard("UpdatePolicy", func() { _, _ = e.UpdatePolicy(own[w][i], own[w][j]) })
+						h.hit("UpdatePolicy")
+						present[i], present[j] = false, true
+					}
+				case 6:
+					if i := find(presentG, false); i >= 0 {
+						r.guard("AddGroupingPolicy", func() { _, _ = e.AddGroupingPolicy(ownG[w][i]) })
+						h.hit("AddGroupingPolicy")
+						presentG[i] = true
+					}
+				case 7:
+					if i := find(presentG, true); i >= 0 {
+						r.guard("RemoveGroupingPolicy", func() { _, _ = e.RemoveGroupingPolicy(ownG[w][i]) })
+						h.hit("RemoveGroupingPolicy")
+						presentG[i] = false
+					}
+				case 8:
+					sub := own[w][2*rng.Intn(3)][0]
+					r.guard("RemoveFilteredPolicy", func() { _, _ = e.RemoveFilteredPolicy(0, sub) })
+					h.hit("RemoveFilteredPolicy")
+					for i := range present {
+						if own[w][i][0] == sub {
+							present[i] = false
+						}
+					}
+				}
+			}
+		}(w)
+	}
+	for rd := 0; rd < nReaders; rd++ {
+		wg.Add(1)
+		go func(rd int) {
+			defer wg.Done()
+			rng := rand.New(rand.NewSource(mixSeed(ec.seed, scIdx, 100+rd, 7)))
+			f := &folder{}
+			<-start
+			for i := 0; time.Now().Before(deadline); i++ {
+				var rules [][]string
+				var one []string
+				w := rng.Intn(nWriters)
+				rule := own[w][rng.Intn(len(own[w]))]
+				switch (i + rd) % 7 {
+				case 0:
+					r.guard("GetPolicy", func() { rules, _ = e.GetPolicy() })
+					h.hit("GetPolicy")
+				case 1:
+					r.guard("GetNamedPolicy", func() { rules, _ = e.GetNamedPolicy("p") })
+					h.hit("GetNamedPolicy")
+				case 2:
+					r.guard("GetGroupingPolicy", func() { rules, _ = e.GetGroupingPolicy() })
+					h.hit("GetGroupingPolicy")
+				case 3:
+					r.guard("GetNamedGroupingPolicy", func() { rules, _ = e.GetNamedGroupingPolicy("g") })
+					h.hit("GetNamedGroupingPolicy")
+				case 4:
+					r.guard("GetFilteredPolicy", func() { rules, _ = e.GetFilteredPolicy(0, rule[0]) })
+					h.hit("GetFilteredPolicy")
+				case 5:
+					r.guard("GetPermissionsForUser", func() { rules, _ = e.GetPermissionsForUser(rule[0]) })
+					h.hit("GetPermissionsForUser")
+				case 6:
+					r.guard("EnforceEx", func() { _, one, _ = e.EnforceEx(rule[0], rule[1], rule[2]) })
+					h.hit("EnforceEx")
+				}
+				// the caller keeps using the result for ~100 microseconds after the lock is gone
+				t0 := time.Now()
+				for {
+					f.sum = f.sum*31 + uint64(len(rules))
+					for _, ru := range rules {
+						f.sum += uint64(len(ru))
+						for _, s := range ru {
+							f.str(s)
+						}
+					}
+					for _, s := range one {
+						f.str(s)
+					}
+					if time.Since(t0) > 100*time.Microsecond {
+						break
+					}
+				}
+			}
+			atomic.AddUint64(&sink, f.sum)
+		}(rd)
+	}
+	close(start)
+	wg.Wait()
+	wd.stop()
+	emit(name, h.counts())
+}
+
 // ---------------------------------------------------------------- autoload-stop (shape of F28)
 
 func waitStopped(e *casbin.SyncedEnforcer, limit time.Duration) bool {
@@ -1672,6 +1999,7 @@ func scenarios() []scenario {
 		{"pattern", mix(&mixCfg{name: "pattern", kind: kindPattern, pools: patternPools, pattern: true, exclude: map[string]bool{"LoadModel": true}})},
 		{"firstcall", runFirstCall},
 		{"filtered-load", runFilteredLoad},
+		{"getter-alias", runGetterAlias},
 		// SavePolicy excluded: rules written by AddPermissionForUser have a non-numeric priority column,
 		// saving them would make every later LoadPolicy fail at once and leave it unexercised
 		{"priority", mix(&mixCfg{name: "priority", kind: kindPriority, pools: basePools, exclude: map[string]bool{"SavePolicy": true}})},
